@@ -1114,6 +1114,7 @@ def evaluate_twophase_case(case) -> Tuple[List[Dict[str, Any]], Any, bool]:
     """case = ("twophase", kind, si, ri, flag): request pump then response pump; addon1 only observes."""
     _, kind, si, ri, flag = case[:5]
     stale = len(case) > 5 and case[5] == "stale"
+    owner_gone = case[5] if len(case) > 5 and case[5] in ("session-closed", "region-dropped") else None
     w = World()
     env = w.env
     viol: List[Dict[str, Any]] = []
@@ -1144,6 +1145,32 @@ def evaluate_twophase_case(case) -> Tuple[List[Dict[str, Any]], Any, bool]:
         if flow.response is None:
             st, rc, rh = w.response_parts(kind, si, ri, "valid", 200)
             env.set_response(flow, st, rc, rh)
+        if owner_gone is not None:
+            # the owner goes away while the request is in flight (logout / region teardown during a long poll): the response event
+            # must still be handed back exactly once; what it is attributed to is not asserted
+            sess = env.sessions[si]
+            if owner_gone == "region-dropped":
+                region = sess.regions[ri]
+                region.mark_dead()
+                sess.regions.remove(region)
+                del region
+            else:
+                env.sessions.remove(sess)
+                env.sm.close_session(sess)
+            del sess
+            gc.collect()
+            if not env.mitm_response(flow):
+                return viol, ("twophase", kind, "no-response-event"), bool(viol)
+            exc = None
+            try:
+                env.pump()
+            except Exception as e:  # the clause below reports it
+                exc = e
+            cbs2 = [i for i in env.take_to_proxy() if i[0] == "callback"]
+            if len(cbs2) != 1 or exc is not None:
+                viol.append({"clause": "handback-immediate", "site": f"pump_proxy_event[response]:twophase:{owner_gone}",
+                             "detail": f"{what}: owner {owner_gone} between the request and the response event: {len(cbs2)} callbacks, pump raised {exc!r}"})
+            return viol, ("twophase", kind, owner_gone, len(cbs2)), True
         if not env.mitm_response(flow):
             return viol, ("twophase", kind, "no-response-event"), bool(viol)
         env.pump()
@@ -1375,6 +1402,12 @@ def cases_for(tier: str):
     for kind in ("none", "normal", "eq", "proxyonly", "tempuploader"):
         for flag in FLAGS:
             cases.append(("twophase", kind, 1, 1, flag, "stale"))
+    for kind in KINDS:
+        if kind in ("login", "bridge", "none"):
+            continue
+        for si, ri in ((0, 0), (1, 1)):
+            for gone in ("session-closed", "region-dropped"):
+                cases.append(("twophase", kind, si, ri, "plain" if "plain" in FLAGS else FLAGS[0], gone))
     # copy + replay with the real proxy-side pump in the loop
     for ev_ in ("request", "response"):
         for kind in KINDS:
